@@ -37,7 +37,7 @@ ASSUMPTIONS = ["a connection that the hostile bytes cause to be closed is an "
                "orders of magnitude above valid traffic",
                "frames with a declared length below 8 end the walk; the "
                "connection must then be closed (or the header answered)"]
-REQUIRED = ["cases", "ctl_cases", "sw_cases", "hostile_units", "closed_by_input",
+REQUIRED = ["cases", "hostile_bytes_from_a_peer_that_has_reset_the_connection", "ctl_cases", "sw_cases", "hostile_units", "closed_by_input",
             "survived_input", "sibling_messages_checked", "loops_alive_checked",
             "frames_walked", "budget_armed", "hostile_during_handshake",
             "hostile_and_valid_traffic_in_one_segment", "declared_length_below_8_judged",
@@ -229,10 +229,19 @@ def ctl_case_handshake (rig, case, rep, fire):
     except Exception:
       xcon = None
   X["s"].send(case["hostile"])
+  if case.get("peer_reset"):
+    # the peer is gone by the time its bytes are looked at (it closed without
+    # reading what the controller had sent: a reset); the bytes that arrived
+    # before the reset are still delivered, the socket no longer knows its peer
+    X["c"].reset_by_peer = True
+    rep.count("hostile_bytes_from_a_peer_that_has_reset_the_connection")
   if not run_budget(len(case["hostile"]) + 200): return
   sibling_round()
   if not run_budget(400): return
   closed = X["c"].closed or X["c"].shut_rd
+  if case.get("peer_reset") and not closed:
+    fire("connection reset by its peer is still open (controller, during the handshake)", "")
+    return
   frames, end = walk(case["hostile"])
   # a frame with another protocol version is not handed to a handler, during
   # the handshake no more than after it (a HELLO of another version is let
@@ -879,6 +888,7 @@ def run (spec, rep):
       ph = (i // spec["nsub"]) % 6
       if ph == 1: case["phase"] = "pre_features"
       elif ph == 3: case["phase"] = "pre_barrier"
+      if ph in (1, 3) and (i // (6 * spec["nsub"])) % 2: case["peer_reset"] = True
       elif ph == 0: case["second_hostile"] = "raise_after"
       elif ph == 4: case["second_hostile"] = "false_before"
     do_case(case, rep)
